@@ -82,6 +82,7 @@ func (c *fRegistryImpl) Register(ctx FContext, resultC chan []byte) error {
 		}
 	}
 	c.channels[opID] = resultC
+	verifHook("reg.add", c, opID, len(c.channels))
 	return nil
 }
 
@@ -94,6 +95,7 @@ func (c *fRegistryImpl) Unregister(ctx FContext) {
 	}
 	c.mu.Lock()
 	delete(c.channels, opID)
+	verifHook("reg.del", c, opID, len(c.channels))
 	c.mu.Unlock()
 }
 
@@ -118,12 +120,16 @@ func (c *fRegistryImpl) dispatch(opid uint64, frame []byte) error {
 	c.mu.RLock()
 	resultC, ok := c.channels[opid]
 	if !ok {
+		verifHook("reg.miss", c, opid, 0)
 		logger().Warn("frugal: unregistered context")
 		c.mu.RUnlock()
 		return nil
 	}
+	verifHook("reg.hit", c, opid, len(resultC))
 	c.mu.RUnlock()
+	verifHook("reg.send", c, opid, 0)
 
 	resultC <- frame
+	verifHook("reg.sent", c, opid, 1)
 	return nil
 }
